@@ -233,6 +233,9 @@ def _must_pass(f, start, region, pass_blocks):
     return True
 
 
+ACTION_ADT = "kanata_keyberon::action::Action"
+
+
 def rule_state_push(prog):
     res = RuleResult("R-STATE-PUSH", "coordinate-keyed states are pushed on every path of their arm; Custom press only if stored", floor=4)
     f = prog.fn(DO_ACTION)
@@ -257,6 +260,22 @@ def rule_state_push(prog):
                 if r and r[0] == "agg" and r[1][2].get("adt") == STATE and r[1][2].get("v") == sv:
                     pass_blocks.append(b)
         ok = bool(pass_blocks) and tgt is not None and _must_pass(f, tgt, region | set(pass_blocks), pass_blocks)
+        if not ok and pass_blocks and tgt is not None:
+            # an arm shared by two variants (`Sequence { .. } | RepeatableSequence { .. } => { ..; if matches!(action,
+            # RepeatableSequence { .. }) { push } }`): only the paths that are possible for *this* variant count
+            from kq.analysis import reach_under_variant
+            feasible = reach_under_variant(prog, f, ACTION_ADT, v, start=tgt)
+            infeasible = region - feasible
+            seen = f.reach_from(tgt, avoid=list(pass_blocks) + list(infeasible))
+            ok = True
+            for b in seen:
+                if b not in region:
+                    ok = False
+                ss = [x for x in f.succs(b) if x not in infeasible]
+                if not ss and f.term(b)["k"] == "return":
+                    ok = False
+                if any(x not in region and x not in pass_blocks for x in ss):
+                    ok = False
         res.inst("push/" + v, state=sv, push_blocks=len(pass_blocks), unconditional=ok)
         res.oblige(ok)
         if not ok:
